@@ -145,12 +145,15 @@ def _load_attr_cls(eng, obj: SV, pycls, name, st, line):
         yield from eng.call(cl, [obj], {}, st, line)
         return
     if isinstance(raw, types.FunctionType):
-        cl = eng.closure_of_live(raw)
+        from .engine import contextmanager_wrapped, CMFactory
+
+        gen = contextmanager_wrapped(raw)
+        cl = eng.closure_of_live(gen if gen is not None else raw)
         if cl is None:
             raise Unsupported(f"method {pycls.__name__}.{name} without source")
         if cl.owner is None:
             cl.owner = c
-        yield st, BoundMethod(obj, cl)
+        yield st, BoundMethod(obj, CMFactory(cl) if gen is not None else cl)
         return
     if isinstance(raw, staticmethod):
         yield st, raw.__func__
